@@ -234,6 +234,18 @@ CHECKS = {
         note="Contracts cannot see inside gemmi, xlwt/xlrd and pandas; 96 round trips per format quick, 400 thorough. Known findings are "
              "listed per format in known_findings.json.",
         technique="exhaustive evaluation of the string codec over a finite domain + static field correspondence; bounded real round trips"),
+    'C12': dict(
+        category='other',
+        text="Contract level (discharged; least_squares as a contract stub): IsothermBaseModel.fit hands over bounds and initial guess in "
+             "parameter order, passes the data through, assigns exactly the optimiser's x (inside the bounds), reports rmse with rmse^2 * n * "
+             "range^2 == sum of squared residuals of the assigned parameters (proved for 7 models with symbolic data, bounds and ranges), "
+             "and turns optimiser failure or ValueError into CalculationError; initial_guess_bounds clamps into the bounds; "
+             "ModelIsotherm.guess attempts every candidate once and returns a converged one with the smallest rmse (1-4 candidates, every "
+             "converge/fail pattern). Bounded (not counted as proved): generator recovery, error identity on noisy data, best-of-list, "
+             "bounds respected, branch selection, from_modelisotherm, unit covariance with the real optimiser.",
+        design_ref='§3 C12',
+        note="Convergence/recovery are numerical facts about scipy's least_squares and are only sampled (10 models x 2-6 parameter vectors).",
+        technique="symbolic execution of the real fit bookkeeping with an optimiser contract stub + z3; bounded runs with the real optimiser"),
 }
 
 NOT_YET = {
